@@ -120,6 +120,8 @@ def check(run, prog, tier):
         ordn[f.name] = o + 1
         inst = "refill:%s:%s:%d" % (rel(f.file), f.name, o)
         why = REFILL_OK.get(f.name)
+        if why is None and const_val(n["R"]) == 1:
+            why = "stores the constant 1: the budget is cut to its last tick (the next instruction raises), never refilled"
         run.ob("C04-b", inst, why is not None, "%s — %s" % (show(n), why or "an LPC-callable efun resets the evaluation budget: a program can run forever by calling it in its loop"), f.file, n.get("l"), f.name,
                what="%s refills eval_cost" % f.name)
 
